@@ -55,6 +55,7 @@ Section Rename.
     rewrite Hop1, Hoc.
     destruct (search_post_parent _ _ HPn) as (np & Hnp1 & Hnp2). rewrite Hnp1.
     destruct (negb (perm_on (f_heap s) op OpenWrite (v_user v))); [stay|].
+    destruct (negb (Nat.eqb oc op) && sticky_refuses (f_heap s) op oc (v_user v)); [stay|].
     destruct (negb (Nat.eqb np op) && negb (perm_on (f_heap s) np OpenWrite (v_user v))); [stay|].
     assert (Hoc_lt : oc < length (f_heap s)) by (apply (search_child_valid _ ro oc IH HPo Hoc)).
     rewrite Vos. change (sepc Linux) with SLASH.
@@ -95,6 +96,7 @@ Section Rename.
     all: destruct (search_post_child _ _ nc HPn Enc) as (np' & Hn1 & _ & Hnlk).
     all: assert (np' = np) by congruence; subst np'.
     all: destruct (get (f_heap s) nc) as [[ch' m'|dt' k' id' m'|lk' m']|] eqn:Egn; try stay.
+    all: destruct (sticky_refuses (f_heap s) np nc (v_user v)); [stay|].
     all: assert (Hndn : node_is_dir (f_heap s) nc = false) by (rewrite node_is_dir_get, Egn; reflexivity).
     all: destruct Hnlk as [->|Hnlk]; [unfold is_dir in Hnp2; congruence|].
     all: cbn [fst]; apply step_ok_with_heap.
